@@ -19,10 +19,11 @@ def tv_prog(item):
     fmt = item.get("fmt", "READ_STATEMENTS")
     subs, macs, noped = corpus_run.res()
     t0 = time.time()
-    c = corpus.compile_stmt(text, fmt, item.get("hyb"))
+    hyb = item.get("hyb", 1000)  # explicit temporary-counter offset: results must not depend on worker history
+    c = corpus.compile_stmt(text, fmt, hyb)
     opts = tv.Opts(unroll=item.get("unroll", 9), timeout_ms=item.get("timeout_ms", 10000),
                    observe_locals=item.get("observe_locals", True))
-    rec = dict(key=f"prog:{text}", c=text, fmt=fmt, hyb=item.get("hyb"))
+    rec = dict(key=f"prog:{text}" + (f" #hyb={hyb}" if hyb != 1000 else ""), c=text, fmt=fmt, hyb=hyb)
     if c[0] != "ok":
         # is the program inside what the reference can give a meaning to?
         from .cref import CExec, Unsupported, CSyntaxError
@@ -51,11 +52,12 @@ def tv_prog(item):
     return rec
 
 
-def run_family(rep, name, programs, item_defaults=None, accept_unsupported_is_violation=True, wf_clauses=()):
-    """Runs programs, classifies into rep.  Returns records."""
+def run_family(rep, name, programs, item_defaults=None, accept_unsupported_is_violation=True, wf_clauses=(),
+               hybs=(1000,)):
+    """Runs programs (once per temporary-counter offset in hybs), classifies into rep.  Returns records."""
     item_defaults = item_defaults or {}
     progs = list(dict.fromkeys(programs))
-    recs = framework.pmap(tv_prog, [dict(item_defaults, text=p) for p in progs], chunksize=4)
+    recs = framework.pmap(tv_prog, [dict(item_defaults, text=p, hyb=h) for p in progs for h in hybs], chunksize=4)
     base = load_baseline("family_rejected.json", {})
     rejected_base = set(base.get(name, []))
     have_base = name in base
